@@ -17,7 +17,11 @@ theorem sp_norm_exc (t : Tree) : ∀ (c : Nat) (f : Flags) (S S' : St), S.exc = 
     | fault s1 => rw [ha] at e; cases e
   | put k v => intro c f S S' h e; simp only [sp] at e; split at e <;> cases e; exact h
   | del k => intro c f S S' h e; simp only [sp] at e; split at e <;> cases e; exact h
-  | notify ev => intro c f S S' h e; simp only [sp] at e; split at e <;> cases e; exact h
+  | notify ev =>
+    intro c f S S' h e; simp only [sp] at e
+    split at e
+    · split at e <;> cases e; exact h
+    · cases e
   | ifp k body ih =>
     intro c f S S' h e
     simp only [sp] at e
@@ -88,6 +92,9 @@ theorem sp_norm_exc (t : Tree) : ∀ (c : Nat) (f : Flags) (S S' : St), S.exc = 
       | some out =>
         rw [hn] at e
         simp only [spPhase] at e
+        by_cases hlim : maxNotifications < (S.ev ++ out.evs).length
+        · simp only [hlim, if_true] at e; cases e
+        simp only [hlim, if_false] at e
         have tail : ∀ S2 : St, S2.exc = false →
             (match sp k c f' S2 with | .norm s3 => Res.norm s3 | .thrown s3 => .fault s3 | .fault s3 => .fault s3) = .norm S' →
             S'.exc = false := by
